@@ -772,3 +772,21 @@ Proof.
   - exact F.
   - rewrite E. cbn [a' with_xs a_xs]. rewrite (nth_upd_same ii y xs Hii). reflexivity.
 Qed.
+
+(** ** view geometry on the fixed-capacity backends *)
+Lemma exec_views c w st v r :
+  WRep c w st -> ufuse (wuw w) = None ->
+  sp_views c st (unext (wuw w)) v = Some r ->
+  res_matches c w (exec c (OViews v) w) r.
+Proof.
+  intros HW Hfuse Hr. unfold sp_views in Hr.
+  destruct (get_a v st) as [av|] eqn:Hg; [|discriminate].
+  destruct (wrep_get c w st v av HW Hg) as (vv & Hgv & HV).
+  destruct (acap c (a_bk av)) as [cp|] eqn:Ea; [|discriminate]. injection Hr as <-.
+  pose proof (vi_cap _ _ _ HV) as Hc. rewrite Ea in Hc.
+  pose proof (rep_len _ _ _ (vi_rep _ _ _ HV)) as Hl.
+  cbn [exec]. rewrite (bind_ok _ _ _ _ _ (peek_vec_ok v w vv Hgv)). cbv zeta. unfold ret. rewrite Hc, Hl.
+  cbn [res_matches ok_res s_out s_pk s_ret s_st s_evs s_nx].
+  split; [reflexivity|split; [reflexivity|split; [reflexivity|]]]. rewrite N.sub_diag.
+  apply step_ok_refl; assumption.
+Qed.
